@@ -8,7 +8,7 @@ import (
 func init() {
 	reg(&core.Property{
 		ID: "C17", Level: "exploration",
-		Batches: []core.Batch{{Name: "registry", Engine: chain.Engine{Prop: "C17"}, Quick: 1200, Thorough: 8000,
+		Batches: []core.Batch{{Name: "registry", Engine: chain.Engine{Prop: "C17"}, Quick: 1600, Thorough: 8000,
 			Rule: "a run is non-trivial when at least three heights were produced and at least eight registry transactions were executed in blocks, among them at least one successful update of an existing node record and at least one refused transaction that the authority model classifies as unauthorised"}},
 		Real: append(append([]string{}, chainReal...), "registry application (transactions, epoch processing of expired nodes), registry/api verification functions, registry and staking state (primary records, key map, consensus-address map, nodes-by-entity and runtimes-by-entity indexes, stake accumulators)"),
 		Stub: chainStub,
